@@ -11,7 +11,7 @@
    warnings, flags that gate the parse) are returned as a `commit` function
    and are applied only together with INPUT_SYNC.                             *)
 From Coq Require Import List ZArith Bool.
-From LJT Require Import model.Suspend.
+From LJT Require Import model.SuspendCore.
 Import ListNotations.
 Local Open Scope Z_scope.
 
